@@ -29,6 +29,7 @@ REGEX_POOL = {
     "^[A-Z_]+$": _all(lambda c: ("A" <= c <= "Z") or c == "_"),
     "^v[0-9]+\\.[0-9]+$": lambda s: (len(s) >= 4 and s[0] == "v" and s.count(".") == 1 and all(p and all(c in "0123456789" for c in p)
                                                                                          for p in s[1:].split("."))),
+    "^user_\\d+$": lambda s: s.startswith("user_") and len(s) > 5 and all(c.isdecimal() for c in s[5:]),
     "^$": lambda s: s == "",
     "^[^ ]+$": _all(lambda c: c != " "),
     "^ab?c$": lambda s: s in ("ac", "abc"),
